@@ -36,7 +36,7 @@ GRID = {
     'hier2': {'a': [-0.5, 0.0, 0.5, 2.0, 2.5], 'b': [-1.0, 0.2, 3.0]},
     'hier3': {'a': [-0.5, 0.0, 0.5, 2.0, 2.5], 'b': [-1.0, 0.2], 'c': [0.0, 0.5, 1.0, 3.0]},
     'chain3-uniform': {'z': [-1.5, -1.0, 0.0, 1.0, 1.5], 'y': [-1.0, 0.5, 1.0, 2.0], 'w': [0.0, 0.5, 1.5, 2.0, 3.5]},
-    'smooth3-norm': {'m': [-1.0, 0.3], 'x': [-0.5, 1.2], 'y': [0.0, 4.0]},
+    'smooth3-norm': {'m': [-1.0, 0.3, 20.0], 'x': [-0.5, 1.2, -12.0], 'y': [0.0, 4.0, 50.0]},      # incl. far tails (log density about -770)
     'hier4': {'m': [-1.0, 1.0], 's': [0.5, 2.0], 'x': [-2.0, 0.4], 'u': [-0.1, 0.0, 0.3, 1.0, 1.2]},
     'order4': {'d': [0.0, 0.25, 1.0, 1.5], 'c': [0.1, 0.25, 1.2, 2.5], 'b': [-1.0, 0.3], 'a': [-0.5, 0.0, 1.0]},
 }
@@ -72,6 +72,21 @@ def oracle_factors(zoo_name, names, X):
             d, args = sp[n]
             out[:, i] = getattr(ss, d).pdf(col[n], *[col[a] if isinstance(a, str) else a for a in args])
     return out
+
+
+def oracle_logsum(zoo_name, names, X, F=None):
+    """sum of the conditional LOG densities computed with scipy's logpdf (not log(pdf): far in the tails the product of positive densities
+    underflows to 0 in machine floats although no conditional density is zero - the log density there is finite)"""
+    import scipy.stats as ss
+    sp = spec_of(zoo_name)
+    col = {n: X[:, i] for i, n in enumerate(names)}
+    tot = np.zeros(len(X))
+    with np.errstate(all='ignore'):
+        for n in names:
+            d, args = sp[n]
+            tot = tot + getattr(ss, d).logpdf(col[n], *[col[a] if isinstance(a, str) else a for a in args])
+    F = oracle_factors(zoo_name, names, X) if F is None else F
+    return np.where((F == 0).any(axis=1), -np.inf, tot)
 
 
 def analytic_grad(zoo_name, names, X):
@@ -131,8 +146,7 @@ def check_case(elfi, zoo_name, names, X=None, seeds=(0,), draws=True, grad=True,
             F = oracle_factors(zoo_name, names, X)
             want = np.prod(F, axis=1)
             zero = (F == 0).any(axis=1)
-            with np.errstate(all='ignore'):
-                wantlog = np.where(zero, -np.inf, np.log(F).sum(axis=1))
+            wantlog = oracle_logsum(zoo_name, names, X, F)
             nontriv = bool(zero.any() and (~zero).any() and k > 1)
             # matrix input
             p, lp = mp.pdf(X), mp.logpdf(X)
@@ -144,7 +158,9 @@ def check_case(elfi, zoo_name, names, X=None, seeds=(0,), draws=True, grad=True,
             if not _same(lp, wantlog):
                 r = int(np.argmax(~np.isclose(np.asarray(lp, float), wantlog, rtol=1e-9, atol=0, equal_nan=True)))
                 return fail('value', 'logpdf(%r) = %r, sum of the log conditional densities = %r' % (X[r].tolist(), float(lp[r]), float(wantlog[r])), row=r)
-            if not np.array_equal(np.asarray(p) == 0, zero) or not np.array_equal(np.isneginf(lp), zero):
+            # logpdf is -inf EXACTLY where a conditional density is zero; pdf is zero there (and, in machine floats, also where the product of
+            # positive densities underflows: `want` is computed the same way, compared above)
+            if np.any(np.asarray(p)[zero] != 0) or not np.array_equal(np.isneginf(lp), zero):
                 return fail('zero-set', 'pdf is zero / logpdf is -inf on a different set of rows than "some conditional density is zero"')
             # vector / scalar inputs
             for r in sorted({0, len(X) // 2, len(X) - 1}):
@@ -253,9 +269,7 @@ H = 1e-5
 
 
 def oracle_logpdf(zoo_name, names, X):
-    F = oracle_factors(zoo_name, names, X)
-    with np.errstate(all='ignore'):
-        return np.where((F == 0).any(axis=1), -np.inf, np.log(F).sum(axis=1))
+    return oracle_logsum(zoo_name, names, X)
 
 
 def oracle_stencil(zoo_name, names, X, h=H):
@@ -362,8 +376,7 @@ def check_long(elfi, zoo_name, names, n, rng, patched=None):
             F = oracle_factors(zoo_name, names, X)
             zero = (F == 0).any(axis=1)
             want = np.prod(F, axis=1)
-            with np.errstate(all='ignore'):
-                wantlog = np.where(zero, -np.inf, np.log(F).sum(axis=1))
+            wantlog = oracle_logsum(zoo_name, names, X, F)
             step = 3 if n < 50 else 4999
             for nm, fn, w in (('pdf', mp.pdf, want), ('logpdf', mp.logpdf, wantlog)):
                 got = np.asarray(fn(X if len(names) > 1 else X[:, 0]))
@@ -477,7 +490,8 @@ def run(tier='quick', seed=0, first_failure_only=True, per_signature=True):
                       '%d hierarchical models <= 4 parameters; every parent-closed subset, %s; grid points inside/on/outside the support; '
                       'matrix/vector/scalar inputs; rvs seeds %d..%d; skipped (not parent-closed) %d; cases without a result inside the time limit (undecided): %d' % (
                           len(ZOO), 'every order' if tier == 'thorough' else 'every order up to 3 names and 6 orders per 4-subset', seed, seed + 2, skipped, len(TIMEOUTS)),
-                rule='non-trivial = request of >= 2 parameters whose grid has rows with zero density and rows with positive density',
+                rule='non-trivial = request of >= 2 parameters whose grid has rows with zero density and rows with positive density; a gradient matrix that has '
+                     'rows outside / on the boundary AND a row inside with a non-zero gradient; a long input of more than 7 rows',
                 cases=cases, nontrivial=nontrivial, failures=failures)
 
 
